@@ -248,6 +248,12 @@ fn wraps(x: &Sel) -> Vec<Sel> {
     // unknown names
     out.push(Sel::Wrap { from: Box::new(x.clone()), cols: vec!["nope".into()], cond: None });
     out.push(Sel::Wrap { from: Box::new(x.clone()), cols: vec![], cond: Some(E::bin(Bin::Eq, E::col("nope"), E::int(1))) });
+    // names that differ from a real column only in letter case are unknown
+    let flipped: String = first.chars().map(|c| if c.is_ascii_lowercase() { c.to_ascii_uppercase() } else { c.to_ascii_lowercase() }).collect();
+    if flipped != first {
+        out.push(Sel::Wrap { from: Box::new(x.clone()), cols: vec![flipped.clone()], cond: None });
+        out.push(Sel::Wrap { from: Box::new(x.clone()), cols: vec![], cond: Some(E::bin(Bin::Eq, E::col(&flipped), E::int(1))) });
+    }
     out.push(Sel::Wrap { from: Box::new(x.clone()), cols: vec![], cond: Some(E::bin(Bin::Or, E::int(1), E::bin(Bin::Eq, E::col("nope"), E::int(1)))) });
     out.push(Sel::Wrap { from: Box::new(x.clone()), cols: vec![], cond: Some(E::bin(Bin::And, E::null(), E::col("nope"))) });
     out
@@ -267,6 +273,12 @@ fn on_conditions(l: &Sel, r: &Sel) -> Vec<E> {
     }
     if let (Some(ln), Some(rn)) = (lc.last(), rc.last()) {
         out.push(E::bin(Bin::Eq, E::col(ln), E::col(rn)));
+    }
+    if let (Some(lk), Some(rk)) = (lc.first(), rc.first()) {
+        let flip = |s: &String| -> String { s.chars().map(|c| if c.is_ascii_lowercase() { c.to_ascii_uppercase() } else { c.to_ascii_lowercase() }).collect() };
+        if flip(rk) != *rk {
+            out.push(E::bin(Bin::Eq, E::col(lk), E::col(&flip(rk))));
+        }
     }
     // an unknown column behind an operand that decides the result alone
     if let Some(lk) = lc.first() {
